@@ -34,12 +34,7 @@ def Req.toSpec (sha256hex : Bytes → Bytes) (r : Req) : SigV4Spec.Request :=
 
 def canonSpec (sha256hex : Bytes → Bytes) (r : Req) : Bytes := SigV4Spec.canonicalRequest (r.toSpec sha256hex)
 
-/-! ## well-formedness: the region outside the three finding classes -/
-
-/-- no two adjacent spaces -/
-def noDoubleSpace : Bytes → Bool
-  | a :: b :: rest => !(a = 32 && b = 32) && noDoubleSpace (b :: rest)
-  | _ => true
+/-! ## well-formedness: the region in which the (repaired) code and the specification agree -/
 
 /-- among parameters of one (encoded) name, the (encoded) values already ascend -/
 def dupOrdered : List (Bytes × Bytes) → Bool
@@ -48,18 +43,16 @@ def dupOrdered : List (Bytes × Bytes) → Bool
 
 def encPair (p : Bytes × Bytes) : Bytes × Bytes := (uriEncode true p.1, uriEncode true p.2)
 
-/-- a signed name is fine when it is not `authorization`, exactly one header line carries it and that
-    line's value has no inner run of spaces -/
+/-- a signed name is fine when it is not `authorization` and at least one header line carries it
+    (`v4_check_header_auth` itself refuses a listed name without a line since 10af2bf) -/
 def headerOK (r : Req) (n : Bytes) : Bool :=
-  n ≠ b!"authorization" &&
-  match r.headers.filter (fun h => lower h.1 = n) with
-  | [h] => noDoubleSpace (trim h.2)
-  | _ => false
+  n ≠ b!"authorization" && !(r.headers.filter (fun h => lower h.1 = n)).isEmpty
 
-/-- WF: every signed header occurs exactly once (no `sigv4-repeated-header`, no
-    `sigv4-absent-signed-header`) with a value free of inner space runs (no `sigv4-inner-whitespace`), and
-    duplicate query names carry ascending values (no `sigv4-dup-query-unsorted`) -/
-def wf (r : Req) : Bool := r.signed.all (headerOK r) && dupOrdered (r.qs.map encPair)
+/-- WF after the repairs b7c08fd / 10af2bf: the signed names are distinct, none is `authorization`, each is carried
+    by a header line, and duplicate query names carry ascending values (the open class `sigv4-dup-query-unsorted`).
+    Header values are unrestricted: inner space runs and repeated lines are canonicalised as specified. -/
+def wf (r : Req) : Bool :=
+  r.signed.all (headerOK r) && decide r.signed.Nodup && dupOrdered (r.qs.map encPair)
 
 /-! ## small equalities between the twin definitions of model and specification -/
 
@@ -175,34 +168,43 @@ theorem joinQuery_eq (l : List (Bytes × Bytes)) :
       simp only [joinQuery, List.map_cons, SigV4Spec.joinWith] at ih ⊢
       rw [ih]
 
-theorem collapse_id (t : Bytes) (h : noDoubleSpace t = true) : SigV4Spec.collapseSpaces t = t := by
-  induction t with
-  | nil => rfl
-  | cons a rest ih =>
-    cases rest with
-    | nil => rfl
-    | cons b rest' =>
-      simp only [noDoubleSpace, Bool.and_eq_true, Bool.not_eq_true'] at h
-      simp only [SigV4Spec.collapseSpaces]
-      rw [h.1]
-      simp [ih h.2]
+/-- the code's run-collapsing loop is the specification's `collapseSpaces` -/
+theorem collapseRuns_eq (l : Bytes) :
+    collapseRuns false l = SigV4Spec.collapseSpaces l ∧
+    SigV4Spec.collapseSpaces (32 :: l) = 32 :: collapseRuns true l := by
+  induction l with
+  | nil => exact ⟨rfl, rfl⟩
+  | cons c cs ih =>
+    have hfalse : collapseRuns false (c :: cs) = SigV4Spec.collapseSpaces (c :: cs) := by
+      by_cases hc : c = 32
+      · subst hc
+        rw [ih.2]
+        simp [collapseRuns]
+      · cases cs with
+        | nil => simp [collapseRuns, SigV4Spec.collapseSpaces]
+        | cons d ds =>
+          have : collapseRuns false (c :: d :: ds) = c :: collapseRuns false (d :: ds) := by
+            simp [collapseRuns, hc]
+          rw [this, ih.1]
+          simp [SigV4Spec.collapseSpaces, hc]
+    refine ⟨hfalse, ?_⟩
+    by_cases hc : c = 32
+    · subst hc
+      have : SigV4Spec.collapseSpaces (32 :: 32 :: cs) = SigV4Spec.collapseSpaces (32 :: cs) := by
+        simp [SigV4Spec.collapseSpaces]
+      rw [this, ih.2]
+      simp [collapseRuns]
+    · have : SigV4Spec.collapseSpaces (32 :: c :: cs) = 32 :: SigV4Spec.collapseSpaces (c :: cs) := by
+        simp [SigV4Spec.collapseSpaces, hc]
+      rw [this, ← hfalse]
+      simp [collapseRuns, hc]
 
-theorem trimAll_eq_trim (v : Bytes) (h : noDoubleSpace (trim v) = true) : SigV4Spec.trimAll v = trim v := by
-  have : SigV4Spec.trimAll v = SigV4Spec.collapseSpaces (trim v) := rfl
-  rw [this, collapse_id _ h]
+/-- the canonical value of the code is `Trim()` of the specification -/
+theorem canonValue_eq (v : Bytes) : collapseRuns false (trim v) = SigV4Spec.trimAll v := by
+  rw [(collapseRuns_eq _).1]
+  rfl
 
 /-! ## the header block -/
-
-/-- the one header line a well-formed signed name selects -/
-theorem headerOK_unique {r : Req} {n : Bytes} (h : headerOK r n = true) :
-    n ≠ b!"authorization" ∧ ∃ k v, r.headers.filter (fun h => lower h.1 = n) = [(k, v)] ∧ noDoubleSpace (trim v) = true := by
-  simp only [headerOK, Bool.and_eq_true, decide_eq_true_eq] at h
-  refine ⟨h.1, ?_⟩
-  have h2 := h.2
-  split at h2
-  · rename_i hd heq
-    exact ⟨hd.1, hd.2, heq, h2⟩
-  · cases h2
 
 theorem filter_map_lower (headers : List (Bytes × Bytes)) (n : Bytes) :
     (headers.map fun p => (lower p.1, p.2)).filter (fun p => p.1 = n) =
@@ -219,88 +221,169 @@ theorem getAllPairs_hs (r : Req) (n : Bytes) :
   unfold Req.hs
   rw [getAllPairs_sorted (sortByFirst_sorted _), filter_sortByFirst, filter_map_lower]
 
-theorem findMultiple_wf (r : Req) (onMissing : Bytes → Option Bytes) (names : List Bytes)
+/-- the raw values of the lines carrying name `n` -/
+def Req.vals (r : Req) (n : Bytes) : List Bytes := (r.headers.filter fun h => lower h.1 = n).map (·.2)
+
+theorem getAllPairs_hs_vals (r : Req) (n : Bytes) : getAllPairs r.hs n = (r.vals n).map fun v => (n, v) := by
+  rw [getAllPairs_hs]
+  unfold Req.vals
+  rw [List.map_map]
+  apply List.map_congr_left
+  intro p hp
+  have : lower p.1 = n := by simpa using (List.mem_filter.mp hp).2
+  simp [this]
+
+/-- continuing a line: further values of the name just emitted replace the line feed by `,` -/
+theorem pushHeaderLines_continue (n : Bytes) (hn : n ≠ b!"authorization") (vs : List Bytes) (x : Bytes)
+    (rest : List (Bytes × Bytes)) :
+    pushHeaderLines (some n) (x ++ [10]) (vs.map (fun v => (n, v)) ++ rest) =
+      pushHeaderLines (some n) (x ++ vs.flatMap (fun v => [44] ++ collapseRuns false (trim v)) ++ [10]) rest := by
+  induction vs generalizing x with
+  | nil => simp
+  | cons v vs ih =>
+    simp only [List.map_cons, List.cons_append, pushHeaderLines, hn, if_false, if_true, List.dropLast_concat]
+    have := ih (x ++ [44] ++ collapseRuns false (trim v))
+    simp only [List.append_assoc] at this ⊢
+    rw [this]
+    simp [List.flatMap_cons, List.append_assoc]
+
+theorem joinWith_cons_flatMap (c : Bytes) (cs : List Bytes) :
+    SigV4Spec.joinWith [44] (c :: cs) = c ++ cs.flatMap (fun v => [44] ++ v) := by
+  induction cs generalizing c with
+  | nil => simp [SigV4Spec.joinWith]
+  | cons d ds ih =>
+    simp only [SigV4Spec.joinWith, List.flatMap_cons, ih d, List.append_assoc]
+
+/-- a whole group of lines of one name, after a different (or no) name -/
+theorem pushHeaderLines_group (n : Bytes) (hn : n ≠ b!"authorization") (last : Option Bytes) (hl : last ≠ some n)
+    (v : Bytes) (vs : List Bytes) (ans : Bytes) (rest : List (Bytes × Bytes)) :
+    pushHeaderLines last ans (((v :: vs).map fun v => (n, v)) ++ rest) =
+      pushHeaderLines (some n)
+        (ans ++ (n ++ [58] ++ SigV4Spec.joinWith [44] ((v :: vs).map fun v => collapseRuns false (trim v)) ++ [10])) rest := by
+  simp only [List.map_cons, List.cons_append, pushHeaderLines, hn, if_false, hl]
+  have := pushHeaderLines_continue n hn vs (ans ++ n ++ [58] ++ collapseRuns false (trim v)) rest
+  rw [this, joinWith_cons_flatMap, List.flatMap_map]
+  simp [List.append_assoc]
+
+/-- the selection of distinct names, each with at least one value, renders as one line per name -/
+theorem pushHeaderLines_groups (vals : Bytes → List Bytes) (names : List Bytes) (last : Option Bytes) (ans : Bytes)
+    (hok : ∀ n ∈ names, n ≠ b!"authorization" ∧ vals n ≠ []) (hnd : names.Nodup) (hlast : ∀ n ∈ names, last ≠ some n) :
+    pushHeaderLines last ans (names.flatMap fun n => (vals n).map fun v => (n, v)) =
+      ans ++ names.flatMap (fun n =>
+        n ++ [58] ++ SigV4Spec.joinWith [44] ((vals n).map fun v => collapseRuns false (trim v)) ++ [10]) := by
+  induction names generalizing last ans with
+  | nil => simp [pushHeaderLines]
+  | cons n ns ih =>
+    obtain ⟨hna, hv⟩ := hok n (by simp)
+    rw [List.nodup_cons] at hnd
+    cases hvals : vals n with
+    | nil => exact absurd hvals hv
+    | cons v vs =>
+      rw [List.flatMap_cons, hvals, pushHeaderLines_group n hna last (hlast n (by simp)) v vs ans,
+        ih (some n) _ (fun m hm => hok m (by simp [hm])) hnd.2
+          (fun m hm e => hnd.1 (by injection e with e; rw [e]; exact hm))]
+      simp [List.flatMap_cons, hvals, List.append_assoc]
+
+theorem signedNamesGo_skip (n : Bytes) (vs : List Bytes) (rest : List (Bytes × Bytes)) :
+    signedNamesGo (some n) ((vs.map fun v => (n, v)) ++ rest) = signedNamesGo (some n) rest := by
+  induction vs with
+  | nil => rfl
+  | cons v vs ih => simp [signedNamesGo, ih]
+
+theorem signedNamesGo_groups (vals : Bytes → List Bytes) (names : List Bytes) (last : Option Bytes)
+    (hok : ∀ n ∈ names, n ≠ b!"authorization" ∧ vals n ≠ []) (hnd : names.Nodup) (hlast : ∀ n ∈ names, last ≠ some n) :
+    signedNamesGo last (names.flatMap fun n => (vals n).map fun v => (n, v)) =
+      (if last.isSome && !names.isEmpty then [59] else []) ++ SigV4Spec.joinWith [59] names := by
+  induction names generalizing last with
+  | nil => simp [signedNamesGo, SigV4Spec.joinWith]
+  | cons n ns ih =>
+    obtain ⟨hna, hv⟩ := hok n (by simp)
+    rw [List.nodup_cons] at hnd
+    cases hvals : vals n with
+    | nil => exact absurd hvals hv
+    | cons v vs =>
+      have hl := hlast n (by simp)
+      rw [List.flatMap_cons, hvals]
+      simp only [List.map_cons, List.cons_append, signedNamesGo, hna, hl, decide_false, Bool.or_self,
+        Bool.false_eq_true, if_false]
+      rw [signedNamesGo_skip, ih (some n) (fun m hm => hok m (by simp [hm])) hnd.2
+          (fun m hm e => hnd.1 (by injection e with e; rw [e]; exact hm))]
+      cases ns with
+      | nil => cases last <;> simp [SigV4Spec.joinWith]
+      | cons m ms => cases last <;> simp [SigV4Spec.joinWith, List.append_assoc]
+
+theorem headerOK_iff {r : Req} {n : Bytes} (h : headerOK r n = true) : n ≠ b!"authorization" ∧ r.vals n ≠ [] := by
+  simp only [headerOK, Bool.and_eq_true, decide_eq_true_eq, Bool.not_eq_true', List.isEmpty_eq_false_iff] at h
+  refine ⟨h.1, ?_⟩
+  unfold Req.vals
+  intro e
+  exact h.2 (List.map_eq_nil_iff.mp e)
+
+theorem flatMap_congr' {α β : Type} {f g : α → List β} (l : List α) (h : ∀ x ∈ l, f x = g x) :
+    l.flatMap f = l.flatMap g := by
+  induction l with
+  | nil => rfl
+  | cons x xs ih => rw [List.flatMap_cons, List.flatMap_cons, h x (by simp), ih (fun y hy => h y (by simp [hy]))]
+
+theorem insertBytes_perm (x : Bytes) (l : List Bytes) : (insertBytes x l).Perm (x :: l) := by
+  induction l with
+  | nil => exact List.Perm.refl _
+  | cons y ys ih =>
+    simp only [insertBytes]
+    split
+    · exact (List.Perm.cons y ih).trans (List.Perm.swap x y ys)
+    · exact List.Perm.refl _
+
+theorem sortBytes_perm (l : List Bytes) : (sortBytes l).Perm l := by
+  induction l with
+  | nil => exact List.Perm.refl _
+  | cons x xs ih => exact (insertBytes_perm x _).trans (List.Perm.cons x ih)
+
+/-- what the code selects for well-formed names: all lines of each name, name by name -/
+theorem findMultiple_groups (r : Req) (onMissing : Bytes → Option Bytes) (names : List Bytes)
     (h : ∀ n ∈ names, headerOK r n = true) :
+    findMultiple r.hs names onMissing = names.flatMap fun n => (r.vals n).map fun v => (n, v) := by
+  unfold findMultiple
+  apply flatMap_congr'
+  intro n hn
+  rw [getAllPairs_hs_vals]
+  have hv := (headerOK_iff (h n hn)).2
+  cases hvals : r.vals n with
+  | nil => exact absurd hvals hv
+  | cons v vs => rfl
+
+theorem findMultiple_wf (r : Req) (onMissing : Bytes → Option Bytes) (names : List Bytes)
+    (h : ∀ n ∈ names, headerOK r n = true) (hnd : names.Nodup) :
     canonicalHeadersImpl (findMultiple r.hs names onMissing) =
       names.flatMap (fun n => n ++ [58] ++ SigV4Spec.joinWith [44] (SigV4Spec.headerValues r.headers n) ++ [10]) ∧
-    signedHeadersImpl (findMultiple r.hs names onMissing) = intercalate [59] names := by
-  induction names with
-  | nil => exact ⟨rfl, rfl⟩
-  | cons n ns ih =>
-    obtain ⟨hna, k, v, hf, hv⟩ := headerOK_unique (h n (by simp))
-    have ih := ih (fun m hm => h m (by simp [hm]))
-    have hlow : lower k = n := by
-      have : (k, v) ∈ r.headers.filter (fun h => lower h.1 = n) := by rw [hf]; simp
-      simpa using (List.mem_filter.mp this).2
-    have hsel : findMultiple r.hs (n :: ns) onMissing = (n, v) :: findMultiple r.hs ns onMissing := by
-      simp only [findMultiple, List.flatMap_cons, getAllPairs_hs, hf, List.map_cons, List.map_nil, hlow]
-      rfl
-    have hvals : SigV4Spec.headerValues r.headers n = [trim v] := by
-      simp only [SigV4Spec.headerValues]
-      have : (r.headers.filter fun h => SigV4Spec.lowercase h.1 = n) = [(k, v)] := hf
-      rw [this]
-      simp [trimAll_eq_trim v hv]
-    constructor
-    · rw [hsel]
-      simp only [canonicalHeadersImpl] at ih ⊢
-      rw [List.filter_cons]
-      simp only [hna, ne_eq, not_false_eq_true, decide_true, if_true, List.flatMap_cons, ih.1, hvals,
-        SigV4Spec.joinWith]
-    · rw [hsel]
-      simp only [signedHeadersImpl] at ih ⊢
-      rw [List.filter_cons]
-      simp only [hna, ne_eq, not_false_eq_true, decide_true, if_true, List.map_cons]
-      cases hns : ns with
-      | nil => simp [findMultiple, intercalate]
-      | cons m ms =>
-        rw [hns] at ih
-        -- the rest of the selection starts with a pair, so the separator is inserted
-        obtain ⟨_, k', v', hf', _⟩ := headerOK_unique (h m (by simp [hns]))
-        have hlow' : lower k' = m := by
-          have : (k', v') ∈ r.headers.filter (fun h => lower h.1 = m) := by rw [hf']; simp
-          simpa using (List.mem_filter.mp this).2
-        have hsel' : findMultiple r.hs (m :: ms) onMissing = (m, v') :: findMultiple r.hs ms onMissing := by
-          simp only [findMultiple, List.flatMap_cons, getAllPairs_hs, hf', List.map_cons, List.map_nil, hlow']
-          rfl
-        have hma : m ≠ b!"authorization" := (headerOK_unique (h m (by simp [hns]))).1
-        rw [hsel'] at ih ⊢
-        rw [List.filter_cons] at ih ⊢
-        simp only [hma, ne_eq, not_false_eq_true, decide_true, if_true, List.map_cons] at ih ⊢
-        simp only [intercalate] at ih ⊢
-        rw [ih.2]
+    signedHeadersImpl (findMultiple r.hs names onMissing) = SigV4Spec.joinWith [59] names := by
+  have hok : ∀ n ∈ names, n ≠ b!"authorization" ∧ r.vals n ≠ [] := fun n hn => headerOK_iff (h n hn)
+  have hvals : ∀ n, (r.vals n).map (fun v => collapseRuns false (trim v)) = SigV4Spec.headerValues r.headers n := by
+    intro n
+    unfold Req.vals SigV4Spec.headerValues
+    rw [List.map_map]
+    apply List.map_congr_left
+    intro p _
+    exact canonValue_eq p.2
+  rw [findMultiple_groups r onMissing names h]
+  constructor
+  · unfold canonicalHeadersImpl
+    rw [pushHeaderLines_groups r.vals names none [] hok hnd (fun _ _ e => by cases e)]
+    simp only [List.nil_append, hvals]
+  · unfold signedHeadersImpl
+    rw [signedNamesGo_groups r.vals names none hok hnd (fun _ _ e => by cases e)]
+    simp
 
 /-! ## the main equality -/
 
 theorem canon_impl_eq_spec (sha256hex : Bytes → Bytes) (onMissing : Bytes → Option Bytes) (r : Req)
     (h : wf r = true) : canonImpl sha256hex onMissing r = canonSpec sha256hex r := by
-  simp only [wf, Bool.and_eq_true, List.all_eq_true] at h
-  obtain ⟨hh, hq⟩ := h
-  have hnames : ∀ n ∈ sortBytes r.signed, headerOK r n = true := by
-    intro n hn
-    apply hh
-    have : ∀ (l : List Bytes), n ∈ sortBytes l → n ∈ l := by
-      intro l
-      induction l with
-      | nil => simp [sortBytes]
-      | cons x xs ih =>
-        have hins : ∀ (l : List Bytes), n ∈ insertBytes x l → n = x ∨ n ∈ l := by
-          intro l
-          induction l with
-          | nil => simp [insertBytes]
-          | cons y ys ih2 =>
-            simp only [insertBytes]
-            split
-            · simp only [List.mem_cons]
-              rintro (h | h)
-              · simp [h]
-              · rcases ih2 h with h | h <;> simp [h]
-            · simp
-        intro hm
-        rcases hins _ hm with h | h
-        · simp [h]
-        · simp [ih h]
-    exact this _ hn
-  obtain ⟨hc, hs⟩ := findMultiple_wf r onMissing (sortBytes r.signed) hnames
+  simp only [wf, Bool.and_eq_true, List.all_eq_true, decide_eq_true_eq] at h
+  obtain ⟨⟨hh, hnd⟩, hq⟩ := h
+  have hnames : ∀ n ∈ sortBytes r.signed, headerOK r n = true :=
+    fun n hn => hh n ((sortBytes_perm r.signed).mem_iff.mp hn)
+  have hnd' : (sortBytes r.signed).Nodup := (sortBytes_perm r.signed).nodup_iff.mpr hnd
+  obtain ⟨hc, hs⟩ := findMultiple_wf r onMissing (sortBytes r.signed) hnames hnd'
   have hquery : canonicalQueryImpl false r.qs = SigV4Spec.canonicalQuery r.qs := by
     simp only [canonicalQueryImpl, SigV4Spec.canonicalQuery, Bool.false_eq_true, if_false]
     have : (r.qs.map fun p => (uriEncode true p.1, uriEncode true p.2)) =
@@ -312,7 +395,6 @@ theorem canon_impl_eq_spec (sha256hex : Bytes → Bytes) (onMissing : Bytes → 
     have hq' : dupOrdered (r.qs.map fun p => (uriEncode true p.1, uriEncode true p.2)) = true := hq
     rw [sortByFirst_eq_sortPairs _ hq']
   rw [sortBytes_eq] at hc hs
-  rw [intercalate_eq] at hs
   simp only [canonImpl, canonSpec, createCanonicalRequest, SigV4Spec.canonicalRequest, Req.toSpec,
     SigV4Spec.canonicalHeaders, SigV4Spec.signedHeadersLine, hquery, uriEncode_eq, sortBytes_eq, hc, hs,
     Bool.not_false]
@@ -406,15 +488,17 @@ def canonPresignedSpec (r : Req) : Bytes :=
 def Req.signedQs (r : Req) : List (Bytes × Bytes) := r.qs.filter fun p => p.1 ≠ b!"X-Amz-Signature"
 
 /-- WF for presigned URLs: as `wf`, on the parameters other than `X-Amz-Signature`, and the
-    `X-Amz-SignedHeaders` list is sorted as the documents require -/
+    `X-Amz-SignedHeaders` list is sorted as the documents require (the presigned path neither sorts the list nor
+    refuses a listed name without a header line: open class `sigv4-absent-signed-header` of `sigv4pre`) -/
 def wfPresigned (r : Req) : Bool :=
-  r.signed.all (headerOK r) && dupOrdered (r.signedQs.map encPair) && (sortBytes r.signed = r.signed)
+  r.signed.all (headerOK r) && decide r.signed.Nodup && dupOrdered (r.signedQs.map encPair) &&
+  (sortBytes r.signed = r.signed)
 
 theorem canon_presigned_impl_eq_spec (onMissing : Bytes → Option Bytes) (r : Req) (h : wfPresigned r = true) :
     canonPresignedImpl onMissing r = canonPresignedSpec r := by
   simp only [wfPresigned, Bool.and_eq_true, List.all_eq_true, decide_eq_true_eq] at h
-  obtain ⟨⟨hh, hq⟩, hsorted⟩ := h
-  obtain ⟨hc, hs⟩ := findMultiple_wf r onMissing r.signed hh
+  obtain ⟨⟨⟨hh, hnd⟩, hq⟩, hsorted⟩ := h
+  obtain ⟨hc, hs⟩ := findMultiple_wf r onMissing r.signed hh hnd
   have hquery : canonicalQueryImpl true r.qs = SigV4Spec.canonicalQuery r.signedQs := by
     simp only [canonicalQueryImpl, SigV4Spec.canonicalQuery, if_true]
     have : (r.signedQs.map fun p => (uriEncode true p.1, uriEncode true p.2)) =
@@ -428,7 +512,6 @@ theorem canon_presigned_impl_eq_spec (onMissing : Bytes → Option Bytes) (r : R
     rw [e, sortByFirst_eq_sortPairs _ hq']
   have hsorted' : SigV4Spec.sortStrs r.signed = r.signed := by rw [← sortBytes_eq]; exact hsorted
   have e2 : (r.qs.filter fun p => p.1 ≠ SigV4Spec.xAmzSignature) = r.signedQs := rfl
-  rw [intercalate_eq] at hs
   simp only [canonPresignedImpl, canonPresignedSpec, createPresignedCanonicalRequest, SigV4Spec.canonicalRequest,
     SigV4Spec.presignedRequest, SigV4Spec.canonicalHeaders, SigV4Spec.signedHeadersLine, hquery, uriEncode_eq,
     hsorted', hc, hs, e2, Bool.not_false]
